@@ -1,0 +1,25 @@
+//go:build verif
+
+package transport_quic
+
+import "github.com/aperturerobotics/bifrost/peer"
+
+// VerifDialerInfo describes one entry of the transport's dialers map.
+type VerifDialerInfo struct {
+	// PeerID is the peer id the dialer was created for.
+	PeerID peer.ID
+	// Dialer is the dialer object (identity only).
+	Dialer *Dialer
+}
+
+// VerifSnapshotDialers returns a copy of the dialers map (takes t.mtx): address -> the peer id
+// the dialer occupying the address was created for.
+func (t *Transport) VerifSnapshotDialers() map[string]VerifDialerInfo {
+	out := make(map[string]VerifDialerInfo)
+	t.mtx.Lock()
+	for k, v := range t.dialers {
+		out[k] = VerifDialerInfo{PeerID: v.peerID, Dialer: v}
+	}
+	t.mtx.Unlock()
+	return out
+}
